@@ -5,7 +5,7 @@
 (* sample (module Mean); call styles of one group must agree bit for bit   *)
 (* with the first ("base") event; an "exchange" event must mirror it.      *)
 (***************************************************************************)
-EXTENDS Mean, Json, TLC
+EXTENDS Mean, TClosed, Json, TLC
 
 Rec == ndJsonDeserialize(IOEnv.TRACE)
 PROP == IF "PROP" \in DOMAIN IOEnv THEN IOEnv.PROP ELSE "C01"
@@ -69,6 +69,26 @@ ArithClauses(e, P) ==
             \cup (IF DySign(st.v) = 0 THEN {P \o ".constant_sample"} ELSE {})
             \cup (IF nu <= 8 THEN {P \o ".small_n"} ELSE {})
           ELSE {})
+
+\* ---------------------------------------------------------------- extreme levels, even dof (C06)
+\* Symmetric probe data (n odd: (n-1)/2 values -1, (n-1)/2 values +1, one 0): mean 0, V = n (n-1), so the implied critical
+\* value satisfies c^2 = n b^2 exactly.  nu = n - 1 is even: the closed form decides it at the float level actually used.
+ExtremeFailed(e, P) ==
+    LET n  == e.n
+        nu == n - 1
+        L  == FDy(e.confv.level)
+        A  == IF e.conf.kind = "two" THEN L ELSE DyAbs(DySub(DyMulInt(L, 2), DyOfInt(1)))
+        sg == IF e.conf.kind = "two" THEN 1 ELSE DySign(DySub(DyMulInt(L, 2), DyOfInt(1)))
+        okb(b, which) == /\ ClosedFormOK(nu, DyMulInt(DySq(b), n), A, 27)
+                         /\ DySign(b) = (IF which = "hi" THEN sg ELSE -sg) IN
+    IF e.out.tag = "panic" THEN {P \o ".no_panic"}
+    ELSE IF ~OkIv(e) THEN {P \o ".domain"}
+    ELSE {c \in {P \o ".shape"} : ~ShapeOK(e)}
+         \cup (IF ~ShapeOK(e) THEN {} ELSE
+               {c \in {P \o ".even_dof_closed_form"} :
+                  \/ (HasLoB(e) /\ ~okb(FDy(e.out.iv.lo), "lo"))
+                  \/ (HasHiB(e) /\ ~okb(FDy(e.out.iv.hi), "hi"))})
+ExtremeClauses(e, P) == {P \o ".no_panic", P \o ".shape", P \o ".even_dof_closed_form", P \o ".extreme_level." \o e.conf.kind}
 
 \* ---------------------------------------------------------------- paired / unpaired (C04)
 \* explicit aligned samples (every block has count 1): run-length sample of the differences
@@ -192,12 +212,14 @@ HarmFailed(e) ==
 \* ---------------------------------------------------------------- dispatch
 PropOf(e) == IF PROP \in {"C06", "C09"} THEN PROP ELSE "C01"
 Failed1(e) ==
+    IF "extreme" \in DOMAIN e THEN ExtremeFailed(e, PropOf(e)) ELSE
     CASE e.fl = "arith"    -> ArithFailed(e, PropOf(e))
       [] e.fl = "paired"   -> PairedFailed(e)
       [] e.fl = "unpaired" -> UnpairedFailed(e)
       [] e.fl = "geo"      -> GeoFailed(e)
       [] e.fl = "harm"     -> HarmFailed(e)
 Clauses1(e) ==
+    IF "extreme" \in DOMAIN e THEN ExtremeClauses(e, PropOf(e)) ELSE
     CASE e.fl = "arith"    -> ArithClauses(e, PropOf(e))
       [] e.fl = "paired"   -> {"C04.no_panic", "C04.paired." \o e.style}
                               \cup (IF Len(e.data.rle) # Len(e.datab.rle) THEN {"C04.different_sizes"}
